@@ -4,17 +4,26 @@ import json, os, subprocess, glob, sys, re
 out = {}
 path = '/tmp/scratch/seed_matrix.json'
 if os.path.exists(path): out = json.load(open(path))
-extra = {'C01': ['C02'], 'C02': ['C01'], 'C03': ['C07', 'C04'], 'C04': ['C17', 'C07'], 'C05': ['C07', 'C06', 'C10'], 'C06': ['C17'], 'C07': ['C05', 'C10'], 'C08': ['C09'], 'C09': ['C08'], 'C10': ['C07'],
-         'C11': ['C01'], 'C12': [], 'C13': ['C17'], 'C14': ['C15'], 'C15': ['C14'], 'C16': ['C17'], 'C17': ['C04', 'C06', 'C16'], 'C18': [], 'C19': []}
+extra = {'C01': ['C02'], 'C02': ['C01'], 'C03': ['C04'], 'C04': ['C17'], 'C05': ['C07'], 'C06': ['C17'], 'C07': ['C05'], 'C08': ['C09'], 'C09': ['C08'], 'C10': ['C07'],
+         'C11': ['C01'], 'C12': [], 'C13': ['C17'], 'C14': ['C15'], 'C15': ['C14'], 'C16': ['C17'], 'C17': ['C04'], 'C18': [], 'C19': []}
 def sources():
     for d in sorted(glob.glob('/tmp/wt_out/C*')): yield d, os.path.basename(d), ''
     for d in sorted(glob.glob('/tmp/wt2_out/C*')): yield d, os.path.basename(d), 'w2'
     for d in sorted(glob.glob('/tmp/wt2_out/D*')): yield d, 'C' + os.path.basename(d)[1:], 'w3'
     for d in sorted(glob.glob('/tmp/wt3_out/E*')): yield d, 'C' + os.path.basename(d)[1:], 'w4'
     for d in sorted(glob.glob('/tmp/wt3_out/F*')): yield d, 'C' + os.path.basename(d)[1:], 'w5'
+SHARD = os.environ.get('SHARD')          # "i/k": only every k-th change, results in seed_matrix.<i>.json (merge with tools/seed_matrix.py --merge)
+if '--merge' in sys.argv:
+    for f in sorted(glob.glob('/tmp/scratch/seed_matrix.*.json')): out.update(json.load(open(f)))
+    json.dump(out, open(path, 'w'), indent=1); print('merged', len(out)); sys.exit(0)
+if SHARD:
+    si, sk = map(int, SHARD.split('/')); path = '/tmp/scratch/seed_matrix.%d.json' % si; out = json.load(open(path)) if os.path.exists(path) else {}
+n_seen = 0
 for d, pid, wave in sources():
     for diff in sorted(glob.glob(d + '/m[0-9].diff')):
         key = pid + '-' + wave + os.path.basename(diff)[:-5]
+        n_seen += 1
+        if SHARD and n_seen % sk != si: continue
         if key in out and not os.environ.get('FORCE'): continue
         res = {}
         for c in [pid] + extra.get(pid, []):
